@@ -314,7 +314,61 @@ def gen_plan(S, index, tier):
     sweep_runs = len(opnames) * len(world.FIXED_SPECS) * len(POISON_SPOTS)
     if index < pair_runs + sweep_runs:
         return _gen_poison_plan(S, index - pair_runs, header, opnames)
+    queries = [n for n in opnames if 'editor' not in OPS[n].tags]
+    sandwich_runs = len(queries) * len(world.FIXED_SPECS) * 2
+    if index < pair_runs + sweep_runs + sandwich_runs:
+        return _gen_sandwich_plan(S, index - pair_runs - sweep_runs, header, queries)
     return _gen_random_plan(S, header, tier)
+
+
+def _gen_sandwich_plan(S, k, header, queries):
+    """query, explicit editor, the same query again - on one shared annotation: what the query returns after the
+    edit must be what a fresh object with the edited content returns (a cache the editor did not invalidate)"""
+    n = len(queries)
+    rep, rest = divmod(k, n * len(world.FIXED_SPECS))
+    si, qi = divmod(rest, n)
+    cfg = SP.swarm_cfg(S)
+    sp = copy.deepcopy(world.FIXED_SPECS[si])
+    short = copy.deepcopy(world.FIXED_SPECS[3])
+    pool, W = _mk_world(S, cfg, [sp, short], ['parse', 'parse'], 'quick')
+    name = queries[qi]
+    o = OPS[name]
+    header.update({'mode': 'sandwich', 'op': name, 'spec': si, 'clients': 2, 'faults': []})
+    events = []
+    args = None
+    for _ in range(6):
+        args = o.gen(S, W)
+        if args is not None:
+            break
+    if args is None:
+        return {'header': header, 'pool': pool, 'events': events}
+    target = None
+    for an, av in args.items():
+        if isinstance(av, dict) and av.get('h') in ('A0', 'A1'):
+            target = av['h']
+            break
+    if target is None:
+        target = 'A0'
+    W2 = dict(W, kinds=dict(W['kinds'], ann=[target]))
+    ed = S.pick(catalog.EDITORS + ['add_mods'])
+    eargs = None
+    for _ in range(6):
+        eargs = OPS[ed].gen(S, W2)
+        if eargs is not None:
+            break
+    if eargs is None:
+        return {'header': header, 'pool': pool, 'events': events}
+    if ed == 'add_mods':
+        eargs['sequence'] = {'h': target}
+    header['editor'] = ed
+    nres = 0
+    for c, (nm, ar) in enumerate(((name, args), (ed, eargs), (name, copy.deepcopy(args)))):
+        rh = f'R{nres}'
+        nres += 1
+        events.append({'act': 'call', 'client': c % 2, 'op': nm, 'args': ar, 'out': rh, 'twin_first': S.coin(0.5)})
+        if OPS[nm].lazy:
+            events.append({'act': 'drain', 'client': c % 2, 'lazy': rh})
+    return {'header': header, 'pool': pool, 'events': events}
 
 
 POISON_SPOTS = ['first', 'last', 'cterm']
@@ -1008,16 +1062,20 @@ def _spec_shrinks(sp):
 # ------------------------------------------------------------------------------------------ evidence metadata
 
 CHUNK = 200
-RULE = ("run index i < 108*108*5: systematic family - ordered pair (op_a, op_b) of the 108-entry catalogue applied by two "
-        "clients to one shared all-features annotation (5 fixed Specs); the next 108*5*3 indices: poison sweep - every op once on every fixed Spec with one unresolvable modification at the first residue / last residue / C-terminus, followed by a mass call; other indices: seeded random history of 2-12 "
-        "catalogue calls by 1-3 clients on 1-4 shared generated annotations plus shared list/dict arguments, with "
-        "interleaved single steps / abandonment of lazy results, scribbles on returned values, RNG use, vocabulary "
-        "refresh and poisoned modifications, per-run swarm switches. Distinct = distinct sequence of (event kind | op "
-        "name); non-trivial = some shared pool object was passed to at least two calls and at least one oracle "
-        "comparison ran.")
+RULE = (f"catalogue of {len(OPS)} ops ({len(OPS) - len(catalog.EDITORS)} queries + {len(catalog.EDITORS)} explicit editors). Run index i < n*n*5: "
+        "systematic family - ordered pair (op_a, op_b) applied by two clients to one shared all-features annotation (5 fixed "
+        "Specs); next n*5*3: poison sweep - every op once on every fixed Spec with one unresolvable modification at the first "
+        "residue / last residue / C-terminus, followed by a mass call; next q*5*2: sandwich - query, explicit editor, the same "
+        "query again; other indices: seeded random history of 2-12 catalogue calls by 1-3 clients on 1-4 shared generated "
+        "annotations plus shared list/dict arguments, with interleaved single steps / abandonment of lazy results, scribbles "
+        "on returned values, RNG use, vocabulary refresh and poisoned modifications, per-run swarm switches; ~5% of the calls "
+        "are also evaluated in a pristine forked process. Distinct = distinct sequence of (event kind | op name); non-trivial "
+        "= some shared pool object was passed to at least two calls and at least one oracle comparison ran.")
 EXPECTED_PROBES = ['twin_first', 'call_raised', 'lazy_stepped_across_a_call', 'abandoned_after_first_item',
                    'explicit_editor_event', 'pristine_process_comparisons']
-FAMILY_STARTS = [0, 108 * 108 * 5, 108 * 108 * 5 + 108 * 5 * 3]
+_NOPS = len(OPS)
+_NQ = len([o for o in OPS.values() if 'editor' not in o.tags])
+FAMILY_STARTS = [0, _NOPS * _NOPS * 5, _NOPS * _NOPS * 5 + _NOPS * 15, _NOPS * _NOPS * 5 + _NOPS * 15 + _NQ * 10]
 ASSUMPTIONS = [
     "field accessors (properties, has_*, get_internal_mods_by_index) and Fragment.parent_sequence are references into "
     "the object by design and are not treated as 'results' for the aliasing clause",
